@@ -123,6 +123,10 @@ def diff_case(case):
     nbatches_small = (n >= 2)
     nverbs = len(chain)
     res["nontrivial"] = nbatches_small and (nverbs >= 2 or any("E" in t for t in tags))
+    # text printed (or records emitted from begin/end-free side channels) by a verb UPSTREAM of an early-exiting verb: how many
+    # records reach the upstream verb before the reader notices head's done-flag is inherently batch/timing dependent
+    side_before_exit = any(("P" in tags[i] or chain[i][0] in ("tee", "split") or (chain[i][0] == "put" and "emit" in " ".join(chain[i]))) and
+                           any("E" in tags[j] for j in range(i + 1, len(chain))) for i in range(len(chain)))
     for vname, vflags, venv in variants:
         env = {k: v for k, v in venv.items() if not k.startswith("__")}
         wrapper = ["taskset", "-c", venv["__taskset"]] if "__taskset" in venv else None
@@ -165,11 +169,11 @@ def diff_case(case):
                           f"exit status differs between {ref[0]} {ref[1][0]} and {vname} {obs[0]}",
                           dict(detail, ref_argv=ref[2]["argv"], stderr=r.err[-2000:]))
         elif obs[1] != ref[1][1]:
-            add_violation(res, {"kind": "stdout-differs", "verbs": ",".join(v[0] for v in chain)},
+            add_violation(res, {"kind": "stdout-differs", "verbs": ",".join(v[0] for v in chain), "print_upstream_of_early_exit": side_before_exit},
                           f"stdout differs between {ref[0]} and {vname}",
                           dict(detail, ref_argv=ref[2]["argv"], ref_stdout=ref[1][1][:3000], got_stdout=r.stdout[:3000]))
         elif obs[2] != ref[1][2]:
-            add_violation(res, {"kind": "tee-file-differs", "verbs": ",".join(v[0] for v in chain)},
+            add_violation(res, {"kind": "tee-file-differs", "verbs": ",".join(v[0] for v in chain), "print_upstream_of_early_exit": side_before_exit},
                           f"tee file differs between {ref[0]} and {vname}", detail)
     res["stats"]["interleaving_signatures"] = list(sigs)
     if len(sigs) > 1:
@@ -540,7 +544,7 @@ def race_case(case):
 
 STREAM_VERBS = [
     (["cat"], lambda r: [r]),
-    (["put", "$z = 1"], lambda r: [r + [("z", "1")]]),
+    (["put", "$z = 1"], lambda r: [[kv for kv in r if kv[0] != "z"] + [("z", "1")] if not any(k == "z" for k, _ in r) else [(k, "1" if k == "z" else v) for k, v in r]]),
     (["filter", 'true'], lambda r: [r]),
     (["cut", "-x", "-f", "b"], lambda r: [[kv for kv in r if kv[0] != "b"]]),
     (["rename", "a,A"], lambda r: [[("A" if k == "a" else k, v) for k, v in r]]),
